@@ -13,7 +13,7 @@ PROPS["C15"] = {
                "plus the production constructor (100 replicas) on two concrete destinations; lookup: every sorted ring of 1..6 entries (thorough 1..9) with free positions x every key position; "
                "order independence: 2 destinations x 1..2 replicas and 3 destinations x 1 replica, distinct or shared host names (shared host with 2 replicas and 3 destinations with two or all three on one host: thorough), instance absent or one free byte, all ring positions free including ties, "
                "every non-identity listing order; minimal disruption: 1..2 destinations + 1 added with 1 replica, 1 + 1 with 2 replicas (thorough 2 + 1 with 2 replicas and no instances, 1 + 1 with 2 replicas on one host, 3 + 1 with 1), then removal of any one destination, free positions, every key position; "
-               "address split: every address of 0..6 arbitrary bytes; route level: real ConsistentHashing route (100 replicas, real MD5) over 2 concrete loopback destinations, Add of a third, DelDestination of any index, three concrete metric names"),
+               "address split: every address of 0..6 arbitrary bytes; route level: real ConsistentHashing route (100 replicas, real MD5) over 2 concrete loopback destinations, Add of a third, DelDestination of any index, three concrete metric names; UpdateDestination of any one of 3 destinations to a new address (with / without instance) while the endpoint accepts the reconnect"),
     "outside": ("MD5 itself (uninterpreted: arbitrary digests, a superset of what real MD5 can produce); replica count 100 as a distribution property; more than 3-4 destinations / 2 replicas with free positions (3 destinations x 2 replicas in two listing orders = 6 free ring entries did not finish within 2000 s and is not registered); "
                 "sort.Sort beyond 9 ring entries with free positions (insertion-sort regime of pdqsort; the 300-entry rings of the route-level run are concrete); host names or instances containing quotes, "
                 "backslashes or colons (Python's repr would quote them differently); comparison with carbon-relay.py is by the transcribed definition of carbon.hashing.ConsistentHashRing "
@@ -32,6 +32,8 @@ PROPS["C15"] = {
             spec("C15/route/key=foo.bar", "VerifC15Route", {"key": "foo.bar"}),
             spec("C15/route/key=a", "VerifC15Route", {"key": "a"}),
             spec("C15/route/key=servers.web01.cpu.user", "VerifC15Route", {"key": "servers.web01.cpu.user"}),
+            spec("C15/route-update-addr/key=foo.bar/inst=z", "VerifC15RouteUpdate", {"key": "foo.bar", "inst": "z"}),
+            spec("C15/route-update-addr/key=a/no-inst", "VerifC15RouteUpdate", {"key": "a"}),
         ]},
         {"pkg": "route", "hdir": "route", "specs": [
             _c15_world("order", "VerifC15OrderIndependent", 2, 2),
